@@ -42,6 +42,13 @@ CLAIMED["C15"] = {
     "technique": "deterministic simulation: seeded search over request/response histories through fake runner peers (over-delivery, failure, tracker + disk faults) with an ordering/attribution oracle",
 }
 
+CLAIMED["C13"] = {
+    "text": "Seeded search over sessions of shot pipelines - expand -> run every copy on a shot back-end peer (single or batch calls) -> combine counts or bitstrings, and split-into-batches -> run - with a per-circuit shot ledger (each circuit prepares its own basis state so every shot is attributable), over-delivering and failing peers; distribution-representing measurements under a simulated random generator including adversarial legal draws that target the elimination loop; scale-and-discretise. Requests are biased to arithmetic boundaries. Evidence over sampled requests, not proof; the pure arithmetic helpers are covered only because the pipelines run through them.",
+    "design_ref": "DESIGN.md §3 C13",
+    "note": "Trusted: the shot ledger, the support/ share arithmetic of the oracle, SimRNG legality rule. Stub: ShotBackend peer, numpy.random.choice in adversarial mode. Real: _itertools (expand/split/combine), Measurements.get_measurements_representing_distribution with its resampling loop, scale_and_discretize, BaseCircuitRunner.",
+    "technique": "deterministic simulation: seeded pipeline histories around a fake back-end peer with a conservation ledger, RNG seam with adversarial legal draws",
+}
+
 PENDING = {pid: "applicable (DESIGN.md §3) but its check is not built yet at this commit; not claimed until it is" for pid in
            ["C01", "C04", "C05", "C11", "C13", "C14", "C15", "C17", "C20"] if pid not in CLAIMED}
 
